@@ -298,6 +298,24 @@ theorem fusedClosers_self (e : String) (stack : List String) : P.fusedClosers e 
   · subst h; rfl
   · simp [h]
 
+/-- a closer of the expected type: dropping pending `>` expectations (done for `]]` only) changes nothing -/
+theorem skipGt_ne (e : String) (stack : List String) (h : e ≠ ">") : P.skipGt e stack = (e, stack) := by
+  cases stack with
+  | nil => simp [P.skipGt]
+  | cons a as => simp [P.skipGt, h]
+
+@[simp] theorem skipGt_fst_self (cl : String) (stack : List String) :
+    (if cl = "DBL_RBRACKET" then (P.skipGt cl stack).1 else cl) = cl := by
+  by_cases h : cl = "DBL_RBRACKET"
+  · subst h; simp [skipGt_ne "DBL_RBRACKET" stack (by decide)]
+  · simp [h]
+
+@[simp] theorem skipGt_snd_self (cl : String) (stack : List String) :
+    (if cl = "DBL_RBRACKET" then (P.skipGt cl stack).2 else stack) = stack := by
+  by_cases h : cl = "DBL_RBRACKET"
+  · subst h; simp [skipGt_ne "DBL_RBRACKET" stack (by decide)]
+  · simp [h]
+
 /-- `us` is `ts` with some `]]` tokens taken apart into two `]` (what the matcher does for
     `a[b[0]]`) -/
 inductive Unfused : List CTok → List CTok → Prop
